@@ -87,6 +87,10 @@ class ModeSense10(SCSICommand):
         block_descriptor = data[8:_bdl]  # no one really use this variable in here ?
 
         data = data[8 + _bdl :]
+        if not len(data):
+            # the mode parameter header (and block descriptors) without a mode page
+            result.update({"mode_pages": _mps})
+            return result
 
         _r = {}
         if not data[0] & 0x40:
